@@ -103,30 +103,6 @@ pub fn walk_prog(p: &mut Prog, f: &mut dyn FnMut(&mut Expr)) {
     }
 }
 
-/// Visits every statement list (including nested ones) mutably.
-pub fn walk_stmt_lists(v: &mut Vec<Stmt>, f: &mut dyn FnMut(&mut Vec<Stmt>)) {
-    for s in v.iter_mut() {
-        match s {
-            Stmt::If(bs, fb) => {
-                for (_, b) in bs {
-                    walk_stmt_lists(b, f);
-                }
-                if let Some(b) = fb {
-                    walk_stmt_lists(b, f);
-                }
-            }
-            Stmt::Match(_, arms) => {
-                for (_, b) in arms {
-                    walk_stmt_lists(b, f);
-                }
-            }
-            Stmt::Finish(b) => walk_stmt_lists(b, f),
-            _ => {}
-        }
-    }
-    f(v);
-}
-
 // ---------------------------------------------------------------------------------------------
 // node visitor (expressions, patterns, statement lists)
 
